@@ -40,7 +40,7 @@ type R struct {
 
 func New(prop string) *R {
 	return &R{Property: prop, distinct: map[string]struct{}{}, Counters: map[string]int64{}, violSeen: map[string]int{},
-		MaxSamples: 4, Floors: map[string]int64{}}
+		MaxSamples: 6, Floors: map[string]int64{}}
 }
 
 // Case records one executed case; sig identifies its observed non-trivial class ("" = trivial).
